@@ -52,9 +52,10 @@ HOOK_SRC = {
         d_tr[d_idx] = (d_tr[d_idx]*self.p + s_sv[s_idx] + self.c + 4) % 1000003
 ''',
     'post_loop': '''
-    def post_loop(self, d_idx, d_tr, d_x):
+    def post_loop(self, d_idx, d_tr, d_x, d_h):
         d_tr[d_idx] = (d_tr[d_idx]*11 + self.c + 5) % 1000003
         d_x[d_idx] += self.move
+        d_h[d_idx] = d_h[d_idx]*self.hgrow
 ''',
     'reduce': '''
     def reduce(self, dst, t, dt):
@@ -76,11 +77,12 @@ def module_source():
         hooks = [h for b, h in enumerate(HOOKS) if mask & (1 << b)]
         lines.append('class Tr%03d(Equation):' % mask)
         lines.append('    def __init__(self, dest, sources, p=3, c=1, '
-                     'nconv=0, move=0.0):')
+                     'nconv=0, move=0.0, hgrow=1.0):')
         lines.append('        self.p = p')
         lines.append('        self.c = c')
         lines.append('        self.nconv = nconv')
         lines.append('        self.move = move')
+        lines.append('        self.hgrow = hgrow')
         lines.append('        self.calls = 0')
         lines.append('        super(Tr%03d, self).__init__(dest, sources)'
                      % mask)
@@ -104,11 +106,12 @@ def module_source():
         hooks = [h for b, h in enumerate(HOOKS) if mask & (1 << b)]
         lines.append('class TrN%03d(Equation):' % mask)
         lines.append('    def __init__(self, dest, sources, p=3, c=1, '
-                     'nconv=0, move=0.0):')
+                     'nconv=0, move=0.0, hgrow=1.0):')
         lines.append('        self.p = p')
         lines.append('        self.c = c')
         lines.append('        self.nconv = nconv')
         lines.append('        self.move = move')
+        lines.append('        self.hgrow = hgrow')
         lines.append('        self.calls = 0')
         lines.append('        super(TrN%03d, self).__init__(dest, sources)'
                      % mask)
@@ -223,9 +226,10 @@ def reset(arrays):
 # program specifications (JSON-able) -> Group objects
 # ---------------------------------------------------------------------------
 def eq_spec(mask, dest='a', sources=('a', 'b'), p=3, c=1, nconv=0, move=0.0,
-            derived=False):
+            derived=False, hgrow=1.0):
     return dict(mask=mask, dest=dest, sources=list(sources) if sources
-                else None, p=p, c=c, nconv=nconv, move=move, derived=derived)
+                else None, p=p, c=c, nconv=nconv, move=move, derived=derived,
+                hgrow=hgrow)
 
 
 def group_spec(eqs=None, subgroups=None, **kw):
@@ -272,7 +276,8 @@ def build_group(spec, log, tagp):
                 cls = getattr(mod, 'Tr%03d' % e['mask'])
             members.append(cls(dest=e['dest'], sources=e['sources'],
                                p=e['p'], c=e['c'], nconv=e['nconv'],
-                               move=e['move']))
+                               move=e['move'],
+                               hgrow=e.get('hgrow', 1.0)))
     return Group(equations=members, real=spec['real'],
                  update_nnps=spec['update_nnps'], iterate=spec['iterate'],
                  max_iterations=spec['max_iterations'],
@@ -342,7 +347,8 @@ def programs(thorough, seed):
                                           c=mask % 7, derived=True)])])
     # (2) flag deviations (<=1 quick, <=2 thorough) of a rich default group,
     #     followed by a probe group whose result depends on neighbours
-    base = group_spec([eq_spec(FULL, 'a', ('a', 'b'), p=3, c=1, move=0.4),
+    base = group_spec([eq_spec(FULL, 'a', ('a', 'b'), p=3, c=1, move=0.4,
+                               hgrow=1.75),
                        eq_spec(0b1010110, 'b', ('a',), p=5, c=2),
                        eq_spec(0b0110011, 'a', None, p=7, c=3)])
     probe = group_spec([eq_spec(0b0011000, 'a', ('a', 'b'), p=3, c=5),
@@ -425,7 +431,8 @@ def programs(thorough, seed):
         progs.append([group_spec(subgroups=[sa, sb], name='sub',
                                  pre=True, post=True), probe])
     # (4) sub-groups with their own condition / pre / post / real / range
-    sub1 = group_spec([eq_spec(FULL, 'a', ('a', 'b'), p=3, c=1)])
+    sub1 = group_spec([eq_spec(FULL, 'a', ('a', 'b'), p=3, c=1, move=0.3,
+                               hgrow=1.75)])
     sub2 = group_spec([eq_spec(0b1011010, 'b', ('a', 'c'), p=5, c=2)])
     for d1 in [None] + devs:
         for d2 in ([None] + devs if thorough else [None, devs[seed %
